@@ -24,7 +24,7 @@ THEOREMS = [
     'C18.delta_interpolates', 'C18.delta_periodic_offlattice',
     'C18.a12_pos_inverse', 'C18.a12_pos_inverse_many', 'C18.pos_xy_inverse', 'C18.pos_xy_inverse_many',
     'C18.planeNormal_perp', 'C18.xy_default_inverse', 'C18.E_interchangeable', 'C18.model_roundtrip',
-    'C18.E_other_basis', 'C18.frameK_symmetric', 'C18.total_is_sum', 'C18.total_is_sum_of_terms', 'C18.elastic_symmetric_quadratic', 'C18.elastic_polarization',
+    'C18.E_other_basis', 'C18.E_interchangeable_other', 'C18.frameK_symmetric', 'C18.total_is_sum', 'C18.total_is_sum_of_terms', 'C18.elastic_symmetric_quadratic', 'C18.elastic_polarization',
     'C18.elastic_scaling', 'C18.density_shift_invariant', 'C18.elastic_shift_invariant',
     'C18.energy_state_only', 'C18.longrange_after_edit', 'C18.setters_frame', 'C18.solve_kwargs',
     'C18.solve_ends_fixed', 'C18.solve_interior', 'C18.recompose_decompose',
@@ -381,15 +381,29 @@ def _egsf_case(ctx, spec, g, rec, cs, queries, via='a12', xname='default', obj=F
         if via == 'pos':
             impl = call(g.E_gsf, pos=P.copy())
             o2 = ctx.driver.ask(f'{_gl(obj, "q2apos", head)} {m} ' + cm.frs(P))
-        elif via == 'vects':
-            # fractional coordinates relative to ANOTHER basis of the plane, given as crystal vectors
+        elif via in ('vects', 'posvec', 'xyvec'):
+            # the a1vect= / a2vect= keywords (crystal vectors of ANOTHER basis of the plane): fractional coordinates are
+            # relative to it ('vects'); a Cartesian position stays absolute ('posvec'); plotting coordinates take the
+            # given a1vect as default x axis ('xyvec')
             v1, v2 = np.array(vec3(spec['a1vect'])), np.array(vec3(spec['a2vect']))
             w1, w2 = {'sum': (v1 + v2, v2), 'swap': (v2, v1), 'shear': (v1, v2 - 2 * v1), 'a1only': (v1 + v2, None)}[xname]
             B = np.eye(3) if spec['box'] is None else np.array(spec['box'], dtype=float)
             B1 = np.array([float(t) for t in cm.unfrs(ctx.driver.ask('cart ' + cm.frs(w1) + ' ' + cm.frs(B)))])
             B2 = A2 if w2 is None else np.array([float(t) for t in cm.unfrs(ctx.driver.ask('cart ' + cm.frs(w2) + ' ' + cm.frs(B)))])
-            impl = call(g.E_gsf, a1=q1.copy(), a2=q2.copy(), a1vect=w1, **({} if w2 is None else {'a2vect': w2}))
-            o2 = ctx.driver.ask(f'{_gl(obj, "q2avec", head)} {cm.frs(B1)} {cm.frs(B2)} {m} ' + cm.frs([t for p in queries for t in p]))
+            kwv = dict(a1vect=w1, **({} if w2 is None else {'a2vect': w2}))
+            if via == 'vects':
+                impl = call(g.E_gsf, a1=q1.copy(), a2=q2.copy(), **kwv)
+                o2 = ctx.driver.ask(f'{_gl(obj, "q2avec", head)} {cm.frs(B1)} {cm.frs(B2)} {m} ' + cm.frs([t for p in queries for t in p]))
+            elif via == 'posvec':
+                impl = call(g.E_gsf, pos=P.copy(), **kwv)
+                o2 = ctx.driver.ask(f'{_gl(obj, "q2aopos", head)} {cm.frs(B1)} {cm.frs(B2)} {m} ' + cm.frs(P))
+            else:
+                nn = float(np.linalg.norm(np.cross(A1, A2)))
+                nrm = cm.frs([nn] + list(_norms_spec(A1, A2, B1) if obj else _norms(g, B1)))
+                o1 = ctx.driver.ask(f'{"g" if obj else ""}p2xy some {cm.frs(B1)}{"" if obj else " " + head} {nrm} {m} ' + cm.frs(P))
+                xy = np.array([float(t) for t in cm.unfrs(o1)]).reshape(m, 2)
+                impl = call(g.E_gsf, x=xy[:, 0].copy(), y=xy[:, 1].copy(), **kwv)
+                o2 = ctx.driver.ask(f'{_gl(obj, "q2aoxy", head)} {cm.frs(B1)} {cm.frs(B2)} {nrm} {m} ' + cm.frs(xy))
         else:
             X = {'default': None, 'a2': A2.copy(), 'mix': A1 * 0.5 - A2 * 1.5}[xname]
             Xv = A1 if X is None else X
@@ -763,6 +777,7 @@ def _gseq_case(ctx, rng, specs, hows):
         guarded(ctx, 'gobj:egsf:pos', rep, _egsf_case, ctx, spec, g, rec, cs, qs, 'pos', 'default', True)
         guarded(ctx, 'gobj:egsf:xy', rep, _egsf_case, ctx, spec, g, rec, cs, qs, 'xy', rng.choice(['default', 'a2', 'mix']), True)
         guarded(ctx, 'gobj:egsf:vects', rep, _egsf_case, ctx, spec, g, rec, cs, qs, 'vects', rng.choice(['sum', 'swap', 'shear', 'a1only']), True)
+        guarded(ctx, 'gobj:egsf:posvec', rep, _egsf_case, ctx, spec, g, rec, cs, qs, rng.choice(['posvec', 'xyvec']), rng.choice(['sum', 'swap', 'shear', 'a1only']), True)
         if recd is not None and spec['delta'] is not None:
             guarded(ctx, 'gobj:delta', rep, _delta_case, ctx, spec, g, recd, gen_queries(rng, spec, ctx.n(6, 16), F(0), F(0)))
         rn, rnd = spy_nearest(g)
@@ -1405,6 +1420,7 @@ def correspond(ctx):
             for xname in ('default', rng.choice(['a2', 'mix'])):
                 guarded(ctx, 'egsf:xy', rep, _egsf_case, ctx, spec, g, rec, cs, qs, 'xy', xname)
             guarded(ctx, 'egsf:vects', rep, _egsf_case, ctx, spec, g, rec, cs, qs, 'vects', rng.choice(['sum', 'swap', 'shear', 'a1only']))
+            guarded(ctx, 'egsf:posvec', rep, _egsf_case, ctx, spec, g, rec, cs, qs, rng.choice(['posvec', 'xyvec']), rng.choice(['sum', 'swap', 'shear', 'a1only']))
             if recd is not None:
                 guarded(ctx, 'delta', rep, _delta_case, ctx, spec, g, recd, gen_queries(rng, spec, ctx.n(10, 30), F(0), F(0)))
         rn, rnd = spy_nearest(g)
@@ -1543,18 +1559,77 @@ def _cmp(a, b, rtol, atol):
 def chk_gamma(ctx, case):
     """gamma-surface clauses: reproduces its input at the sampled shifts, periodic, the three kinds of
     coordinates interchangeable (one or many positions), conversions mutual inverses, data-model round trip."""
+    spec = case['spec']
+    g = call(mk_gamma, spec)
+    if isinstance(g, Raised):
+        ctx.violate('gamma:construct', f'GammaSurface(...) {g} [{spec["tag"]} grid {spec["n1"]}x{spec["n2"]} dup={spec["dup"]}]', case)
+        return
+    _gamma_clauses(ctx, case, case, g, '')
+
+
+def chk_gseq(ctx, case):
+    """ONE GammaSurface object: data set 0 -> every clause (which queries it in every form) -> set() / model(model=)
+    with other shift vectors / box / sampling / data INTO THE SAME OBJECT -> every clause again, against the exact
+    oracle of the NEW data and against a fresh object built from them."""
+    np = _np()
+    specs = case['specs']
+    g = call(mk_gamma, specs[0])
+    if isinstance(g, Raised):
+        ctx.violate('gamma:construct', f'GammaSurface(...) {g} [{specs[0]["tag"]}]', case)
+        return
+    n0 = len(ctx.violations)
+    _gamma_clauses(ctx, case, dict(case['sub'][0], spec=specs[0]), g, '')
+    if len(ctx.violations) > n0:
+        return          # the first data set already fails on a fresh object: reported there
+    hist = f'{specs[0]["tag"]} {specs[0]["n1"]}x{specs[0]["n2"]}'
+    for k in range(1, len(specs)):
+        how, spec = case['hows'][k - 1], specs[k]
+        hw = 'set(...)' if how['kind'] == 'set' else f'model(model=<{how["form"]}, {how["lu"]}, {how["eu"]}>)'
+        when = f'ONE object: [{hist}] queried, then {hw} with [{spec["tag"]} {spec["n1"]}x{spec["n2"]}]: '
+        ctx.stats.case('s:gseq', (hist, hw, spec['tag'], spec['n1'], spec['n2'], tuple(spec['E'][:4])))
+        r = call(reload_gamma, g, spec, how)
+        if isinstance(r, Raised):
+            ctx.violate('gamma:reload', f'{when}{r}', case)
+            return
+        fresh = call(mk_gamma, spec)
+        _gamma_clauses(ctx, case, dict(case['sub'][k], spec=spec), g, when, None if isinstance(fresh, Raised) else fresh,
+                       loose=(how['kind'] == 'model'))
+        hist += f' -> {spec["tag"]} {spec["n1"]}x{spec["n2"]}'
+
+
+def _gamma_clauses(ctx, top, case, g, when, fresh=None, loose=False):
+    """the gamma-surface clauses on the object `g`, which is supposed to hold `case['spec']` now."""
     import atomman as am
     np = _np()
     spec = case['spec']
 
     def bad(key, what):
-        ctx.violate('gamma:' + key, f'{what} [{spec["tag"]} grid {spec["n1"]}x{spec["n2"]} dup={spec["dup"]}]', case)
+        ctx.violate('gamma:' + key, f'{when}{what} [{spec["tag"]} grid {spec["n1"]}x{spec["n2"]} dup={spec["dup"]}]', top)
 
-    g = call(mk_gamma, spec)
-    if isinstance(g, Raised):
-        bad('construct', f'GammaSurface(...) {g}')
-        return
+    # the state the object reports: shift vectors, box, plane normal, data
     A1, A2 = o_cart(spec)
+    N_ = fcross(A1, A2)
+    nn_ = math.sqrt(float(fdot(N_, N_)))
+    st_ = call(lambda: (np.asarray(g.a1vect, dtype=float), np.asarray(g.a2vect, dtype=float), np.asarray(g.box.vects, dtype=float),
+                        np.asarray(g.planenormal, dtype=float), g.data))
+    ctx.stats.case('s:state', (spec['tag'], spec['n1'], spec['n2'], when[:80]))
+    if isinstance(st_, Raised):
+        bad('state', f'a1vect / a2vect / box / planenormal / data {st_}')
+        return
+    Bw = np.eye(3) if spec['box'] is None else np.array(spec['box'], dtype=float)
+    w = (_cmp(st_[0], vec3(spec['a1vect']), 1e-14, 0) or _cmp(st_[1], vec3(spec['a2vect']), 1e-14, 0) or _cmp(st_[2], Bw, 1e-13, 1e-14)
+         or _cmp(st_[3], [float(t) / nn_ for t in N_], 1e-12, 1e-13)
+         or _cmp(st_[4].a1.values, spec['a1'], 1e-14, 1e-15) or _cmp(st_[4].a2.values, spec['a2'], 1e-14, 1e-15)
+         or _cmp(st_[4].E_gsf.values, spec['E'], 1e-13 if loose else 0, 0)
+         or (('delta' in st_[4]) != (spec['delta'] is not None) and 'plane-separation column lost/kept')
+         or (spec['delta'] is not None and _cmp(st_[4].delta.values, spec['delta'], 1e-13 if loose else 0, 0)))
+    if w:
+        bad('state', f'a1vect / a2vect / box.vects / planenormal / data of the object are not those of the data it was given: {w}')
+        return
+    if spec['delta'] is None:
+        r = call(g.delta, a1=0.25, a2=0.375)
+        if not isinstance(r, Raised):
+            bad('state', f'delta(a1=0.25, a2=0.375) = {r!r} although the object holds no plane-separation data')
     scale = max(1.0, max(abs(v) for v in spec['E']))
     L = max(1.0, max(abs(float(t)) for t in A1 + A2))
     fit = getattr(g, '_GammaSurface__E_gsf_fit', None)
@@ -1581,7 +1656,7 @@ def chk_gamma(ctx, case):
         if w:
             bad('interpolates', f'E_gsf(a1={float(s1[i % ns])!r}, a2={float(s2[i % ns])!r}) (scalars) != input energy {spec["E"][i % ns]!r}: {w}')
     r = call(g.E_gsf, a1=s1.copy(), a2=s2.copy(), smooth=False)
-    w = str(r) if isinstance(r, Raised) else _cmp(r, spec['E'], 0, 0)
+    w = str(r) if isinstance(r, Raised) else _cmp(r, spec['E'], 1e-13 if loose else 0, 0)       # loose: values went through a unit conversion
     if w:
         bad('interpolates', f'E_gsf(smooth=False) (nearest measured value) at the sampled shifts is not the input energy: {w}')
     if has_d:
@@ -1590,7 +1665,7 @@ def chk_gamma(ctx, case):
         if w:
             bad('delta-interpolates', f'delta at the sampled shifts does not reproduce the input: {w}')
         r = call(g.delta, a1=s1.copy(), a2=s2.copy(), smooth=False)
-        w = str(r) if isinstance(r, Raised) else _cmp(r, spec['delta'], 0, 0)
+        w = str(r) if isinstance(r, Raised) else _cmp(r, spec['delta'], 1e-13 if loose else 0, 0)
         if w:
             bad('delta-interpolates', f'delta(smooth=False) at the sampled shifts is not the input: {w}')
     # -- (2) periodic in both shift vectors
@@ -1603,6 +1678,13 @@ def chk_gamma(ctx, case):
         bad('raises', f'E_gsf(a1=, a2=) {Ea}')
         return
     Ea = np.asarray(Ea, dtype=float)
+    if fresh is not None:
+        # the same data in a fresh object: identical fit, identical answers (generic points, all entry points)
+        for nm, kw in (('E_gsf(a1=, a2=)', {}), ('E_gsf(a1=, a2=, smooth=False)', {'smooth': False})):
+            r1, r2 = call(g.E_gsf, a1=q1.copy(), a2=q2.copy(), **kw), call(fresh.E_gsf, a1=q1.copy(), a2=q2.copy(), **kw)
+            w = str(r1) if isinstance(r1, Raised) else str(r2) if isinstance(r2, Raised) else _cmp(r1, r2, 0, tolE if loose else 1e-12 * scale)
+            if w:
+                bad('reload-fresh', f'{nm} differs from a fresh object holding the same data: {w}; a1={q1.tolist()}, a2={q2.tolist()}')
     Da = None
     if has_d:
         # delta is compared off the lattice lines only (on a line a = n the code evaluates the interpolant at 0
@@ -1711,6 +1793,46 @@ def chk_gamma(ctx, case):
         w = str(r) if isinstance(r, Raised) else str(want) if isinstance(want, Raised) else _cmp(np.asarray(r)[inn], np.asarray(want)[inn], 0, tolE)
         if w:
             bad('interchangeable', f'E_gsf(a1=, a2=, {nm}) != E_gsf of the same points in the own basis: {w}; a1={q1.tolist()}, a2={q2.tolist()}')
+    # ... and the same keywords with a Cartesian position (absolute: keywords irrelevant) or with plotting coordinates
+    # (x axis along the given a1vect): the points (a1, a2) of the basis B1 = v1 + v2, B2 = v2
+    Bo1 = [A1[c] + A2[c] for c in range(3)]
+    Po = [o_pos(Bo1, A2, (FF(a), FF(b_))) for a, b_ in zip(q1, q2)]
+    Pof = np.array([[float(t) for t in p_] for p_ in Po])
+    XYo = np.array([o_xy(A1, A2, Bo1, p_) for p_ in Po])
+    want = call(g.E_gsf, a1=q1.copy(), a2=(q1 + q2).copy())
+    inn = np.array([not ((c1_ == 0 and abs(a - round(a)) < 1e-9) or (c2_ == 0 and abs(b_ - round(b_)) < 1e-9)) for a, b_ in zip(q1, q1 + q2)])
+    for nm, kw in (('pos=P', {'pos': Pof.copy()}), ('x=, y=', {'x': XYo[:, 0].copy(), 'y': XYo[:, 1].copy()})):
+        for nv, kv in (('a1vect=v1+v2, a2vect=v2', {'a1vect': v1 + v2, 'a2vect': v2}), ('a1vect=v1+v2', {'a1vect': v1 + v2})):
+            r = call(g.E_gsf, **kw, **kv)
+            w = str(r) if isinstance(r, Raised) else str(want) if isinstance(want, Raised) else _cmp(np.asarray(r)[inn], np.asarray(want)[inn], 0, tolE)
+            if w:
+                bad('interchangeable', f'E_gsf({nm}, {nv}) != E_gsf(a1=, a2=, {nv}) for the same points P = a1 (A1 + A2) + a2 A2: {w}; '
+                                       f'a1={q1.tolist()}, a2={q2.tolist()}, P={Pof.tolist()}')
+            if Da is not None:
+                offo = np.array([abs(a - round(a)) > 1e-6 and abs(b_ - round(b_)) > 1e-6 for a, b_ in zip(q1, q1 + q2)])
+                if offo.any():
+                    kwo = {k: val[offo] for k, val in kw.items()}
+                    r, wd = call(g.delta, **kwo, **kv), call(g.delta, a1=q1[offo].copy(), a2=(q1 + q2)[offo].copy())
+                    w = str(r) if isinstance(r, Raised) else str(wd) if isinstance(wd, Raised) else _cmp(r, wd, 0, tolD)
+                    if w:
+                        bad('interchangeable', f'delta({nm}, {nv}) != delta(a1=, a2=, {nv}) for the same points: {w}')
+    # 2-D arrays of queries (what the surface plots pass): element-wise the same as the flat query
+    if m >= 2 and m % 2 == 0:
+        sh = (2, m // 2)
+        for nm, kw, ref in (('E_gsf(a1=2-D, a2=2-D)', {}, Ea), ('E_gsf(a1=2-D, a2=2-D, smooth=False)', {'smooth': False}, None),
+                            ('E_gsf(a1=2-D, a2=2-D, a1vect=v1+v2)', {'a1vect': v1 + v2}, want)):
+            if ref is None:
+                ref = call(g.E_gsf, a1=q1.copy(), a2=q2.copy(), smooth=False)
+            r = call(g.E_gsf, a1=q1.reshape(sh).copy(), a2=q2.reshape(sh).copy(), **kw)
+            w = str(r) if isinstance(r, Raised) else str(ref) if isinstance(ref, Raised) else \
+                (f'shape {np.shape(r)}' if np.shape(r) != sh else _cmp(np.asarray(r).ravel()[inn if 'a1vect' in kw else inner], np.asarray(ref)[inn if 'a1vect' in kw else inner], 0, tolE))
+            if w:
+                bad('many', f'{nm} of shape {sh} is not element-wise the flat query: {w}; a1={q1.tolist()}, a2={q2.tolist()}')
+        if Da is not None:
+            r = call(g.delta, a1=q1.reshape(sh).copy(), a2=q2.reshape(sh).copy())
+            w = str(r) if isinstance(r, Raised) else (f'shape {np.shape(r)}' if np.shape(r) != sh else _cmp(np.asarray(r).ravel(), Da, 0, tolD))
+            if w:
+                bad('many', f'delta(a1=2-D, a2=2-D) of shape {sh} is not element-wise the flat query: {w}')
     r = call(g.E_gsf, pos=Pf[0].copy())
     w = str(r) if isinstance(r, Raised) else _cmp(r, Ea[:1], 0, tolE) if inner[0] else None
     if w:
@@ -1849,17 +1971,46 @@ def o_misfit(g, T, A1, A2, x, d, scale):
 TERMS = ('misfit', 'elastic', 'longrange', 'stress', 'nonlocal', 'surface')
 
 
-def _impl_terms(pn, a):
-    return {'misfit': call(pn.misfit_energy, *a), 'elastic': call(pn.elastic_energy, *a),
-            'longrange': call(pn.longrange_energy), 'stress': call(pn.stress_energy, *a),
-            'nonlocal': call(pn.nonlocal_energy, *a), 'surface': call(pn.surface_energy, *a),
-            'total': call(pn.total_energy, *a)}
+def _impl_terms(pn, kw):
+    return {'misfit': call(pn.misfit_energy, **kw), 'elastic': call(pn.elastic_energy, **kw),
+            'longrange': call(pn.longrange_energy), 'stress': call(pn.stress_energy, **kw),
+            'nonlocal': call(pn.nonlocal_energy, **kw), 'surface': call(pn.surface_energy, **kw),
+            'total': call(pn.total_energy, **kw)}
 
 
-def _check_terms(ctx, case, bad, pn, g, K, b, T, A1, A2, st, x, d, given, when, scale):
-    """all six terms and the total of the real object `pn` against the oracle for settings `st`."""
+PRINTED = {'Misfit energy': 'misfit', 'Elastic energy': 'elastic', 'Long-range energy': 'longrange', 'Stress energy': 'stress',
+           'Surface energy': 'surface', 'Nonlocal energy': 'nonlocal', 'Total energy': 'total'}
+
+
+def _printed_energies(pn, kw, unit=None):
+    """what check_energies(x=, disregistry=) prints, parsed: {term: value}."""
+    import contextlib
+    import io
+    buf = io.StringIO()
+    with contextlib.redirect_stdout(buf):
+        pn.check_energies(**kw, **({} if unit is None else {'energyperlength_unit': unit}))
+    out = {}
+    for line in buf.getvalue().splitlines():
+        if '=' in line:
+            k, v = line.split('=', 1)
+            if k.strip() in PRINTED:
+                out[PRINTED[k.strip()]] = float(v)
+    return out
+
+
+def _check_terms(ctx, case, bad, pn, g, K, b, T, A1, A2, st, x, d, mode, when, scale, stored=None):
+    """all six terms and the total of the real object `pn` against the oracle for settings `st`, the methods being
+    CALLED with the subset `mode` of their optional arguments (both | none | x only | disregistry only), plus
+    disldensity and check_energies with the same subset."""
     np = _np()
-    impl = _impl_terms(pn, (np.asarray(x), np.asarray(d)) if given else ())
+    if mode is True or mode is False:
+        mode = 'both' if mode else 'none'
+    kw, x, d = mode_args(mode, np.asarray(x, dtype=float), np.asarray(d, dtype=float), stored)
+    x, d = np.asarray(x, dtype=float), np.asarray(d, dtype=float)
+    args = '(' + ', '.join(k + '=' for k in kw) + ')'
+    if mode != 'both':
+        when = f'{when}; methods called as {args} on an object holding a stored x (n={len(stored[0])}) and disregistry'
+    impl = _impl_terms(pn, kw)
     want = o_terms(K, b, st, x, d)
     mis = call(o_misfit, g, T, A1, A2, x, d, scale)
     if isinstance(mis, Raised):
@@ -1870,27 +2021,58 @@ def _check_terms(ctx, case, bad, pn, g, K, b, T, A1, A2, st, x, d, given, when, 
     fl = {k: st[k] for k in FLAGS}
     tot = 0.0
     tol_tot = 0.0
+    tols = {}
     for t in TERMS:
         wv, wa = float(want[t][0]), float(want[t][1])
         tol = 1e-9 * wa + 1e-13
+        tols[t] = tol
         tot += wv
         tol_tot += tol
         ctx.stats.case('s:term:' + t, (case['system'], when, str(fl), wv))
         if isinstance(impl[t], Raised):
-            bad(t, f'{when}: {t}_energy {impl[t]} ({fl})')
+            bad(t, f'{when}: {t}_energy{args} {impl[t]} ({fl})')
             ok = False
         elif not abs(float(impl[t]) - wv) <= tol:
-            bad(t, f'{when}: {t}_energy = {float(impl[t])!r} but its documented formula gives {wv!r} '
-                   f'({fl}, cutofflongrange={st["cutofflongrange"]}, tau[1]={st["tau"][1]}, alpha={st["alpha"]}, n={len(x)})')
+            bad(t, f'{when}: {t}_energy{args} = {float(impl[t])!r} but its documented formula on the requested profile gives {wv!r} '
+                   f'({fl}, cutofflongrange={st["cutofflongrange"]}, tau[1]={st["tau"][1]}, alpha={st["alpha"]}, n={len(x)}'
+                   + (f', x={x.tolist()}, disregistry={d.tolist()}' if mode != 'both' else '') + ')')
             ok = False
     ctx.stats.case('s:term:total', (case['system'], when, str(fl), tot))
+    tols['total'] = tol_tot
     if isinstance(impl['total'], Raised):
-        bad('total', f'{when}: total_energy {impl["total"]}')
+        bad('total', f'{when}: total_energy{args} {impl["total"]}')
         ok = False
     elif not abs(float(impl['total']) - tot) <= tol_tot:
-        bad('total', f'{when}: total_energy = {float(impl["total"])!r} but the sum of the six documented terms is {tot!r} ({fl}, '
+        bad('total', f'{when}: total_energy{args} = {float(impl["total"])!r} but the sum of the six documented terms is {tot!r} ({fl}, '
                      f'cutofflongrange={st["cutofflongrange"]})')
         ok = False
+    if not ok:
+        return False
+    # the summary printed by check_energies for the same arguments (eV/angstrom = working units)
+    pr = call(_printed_energies, pn, kw)
+    ctx.stats.case('s:check_energies', (case['system'], when, mode))
+    wantp = {t: float(want[t][0]) for t in TERMS}
+    wantp['total'] = tot
+    if isinstance(pr, Raised) or sorted(pr) != sorted(wantp):
+        bad('check_energies', f'{when}: check_energies{args} {pr if isinstance(pr, Raised) else "prints " + str(sorted(pr))}')
+        ok = False
+    else:
+        for t in wantp:
+            if not abs(pr[t] - wantp[t]) <= tols[t] + 1e-12 * abs(wantp[t]):
+                bad('check_energies', f'{when}: check_energies{args} prints {t} = {pr[t]!r}, documented formula {wantp[t]!r}')
+                ok = False
+    # disldensity with the same subset of arguments: coordinates and density
+    xf, df = fvec(x), [fvec(r_) for r_ in d]
+    for cd in (False, True):
+        r = call(pn.disldensity, cdiff=cd, **kw)
+        ctx.stats.case('s:disldensity', (case['system'], when, mode, cd))
+        rho = [[float(t) for t in row] for row in o_density(xf, df, cd)]
+        wx = x[1:-1] if cd else x[1:]
+        w = str(r) if isinstance(r, Raised) else (_cmp(r[0], wx, 0, 0) or _cmp(r[1], rho, 1e-12, 1e-13))
+        if w:
+            bad('disldensity', f'{when}: disldensity({", ".join(list(kw) + ["cdiff=" + str(cd)])}) is not (x[{"1:-1" if cd else "1:"}], '
+                               f'(d[i+{2 if cd else 1}] - d[i]) / (x[i+{2 if cd else 1}] - x[i])): {w}')
+            ok = False
     return ok
 
 
@@ -1902,12 +2084,21 @@ def _system(case):
     return v, g, A1, A2, max(1.0, max(abs(t) for t in case['spec']['E']))
 
 
-def _apply_op(np, mod, pn, op, st, v, g, x, d):
-    """apply one edit to the real object and to the settings record; returns (Raised|None, x, d, given)."""
+def _apply_op(np, mod, pn, op, st, v, g, x, d, stored):
+    """apply one edit to the real object and to the settings record; returns (Raised|None, x, d, stored) where
+    (x, d) is the profile to evaluate explicitly and `stored` = (x, d) the object is supposed to hold now (None: none)."""
     if op['kind'] == 'set':
         r = call(setattr, pn, op['attr'], np.array(op['value']) if op['attr'] in ('tau', 'beta') else op['value'])
         st[op['attr']] = op['value']
-        return (r if isinstance(r, Raised) else None), x, d, True
+        return (r if isinstance(r, Raised) else None), x, d, stored
+    if op['kind'] == 'store':
+        # the property setters obj.x = ..., obj.disregistry = ...
+        sx, sd = np.array(op['x'], dtype=float), np.array(op['d'], dtype=float)
+        for f in op['which']:
+            r = call(setattr, pn, 'x' if f == 'x' else 'disregistry', (sx if f == 'x' else sd).copy())
+            if isinstance(r, Raised):
+                return r, x, d, stored
+        return None, x, d, (sx if 'x' in op['which'] else stored[0], sd if 'd' in op['which'] else stored[1])
     if op['kind'] == 'solve':
         kw = {a: (np.array(val) if a in ('tau', 'beta') else val) for a, val in op['kw'].items()}
         if op.get('x') is not None:
@@ -1916,23 +2107,30 @@ def _apply_op(np, mod, pn, op, st, v, g, x, d):
                  min_options=dict(op.get('options', {'maxfev': 10})), **kw)
         st.update(op['kw'])
         if isinstance(r, Raised):
-            return r, x, d, True
-        return None, np.asarray(pn.x).copy(), np.asarray(pn.disregistry).copy(), False
+            return r, x, d, stored
+        got = call(lambda: np.asarray(pn.disregistry, dtype=float).copy())
+        if isinstance(got, Raised) or got.shape != np.shape(d):
+            return Raised(ValueError(f'disregistry after solve: {got if isinstance(got, Raised) else got.shape}')), x, d, stored
+        return None, np.array(x, dtype=float), got, (np.array(x, dtype=float), got.copy())
     if op['kind'] == 'profile':
         # no edit of the object: the next evaluation uses another profile with the SAME number of points and a
         # different grid spacing (anything remembered per length of the profile would be stale)
-        return None, np.array(op['x']), np.array(op['d']), True
+        return None, np.array(op['x']), np.array(op['d']), stored
     if op['kind'] == 'load':
         src = new_pn(v, g, op['settings'])
         src.x, src.disregistry = np.array(op['x']), np.array(op['d'])
-        m = src.model(include_gamma=bool(op.get('include_gamma')))
+        un = op.get('units', ['Å', 'GPa', 'eV/Å^2'])
+        m = src.model(include_gamma=bool(op.get('include_gamma')), length_unit=un[0], pressure_unit=un[1],
+                      **({'energyperarea_unit': un[2]} if len(un) > 2 else {}))
         form = {'dm': m, 'json': m.json(), 'xml': m.xml()}[op['form']]
         r = call(pn.load, form, **({} if op.get('include_gamma') else {'gamma': g}))
         st.clear()
         st.update(op['settings'])
         if isinstance(r, Raised):
-            return r, x, d, True
-        return None, np.asarray(pn.x).copy(), np.asarray(pn.disregistry).copy(), False
+            return r, x, d, stored
+        # the oracle uses the profile that was SAVED (a unit slip in x / disregistry shows up in every term)
+        sx, sd = np.array(op['x'], dtype=float), np.array(op['d'], dtype=float)
+        return None, sx, sd, (sx.copy(), sd.copy())
     raise ValueError(op['kind'])
 
 
@@ -1969,9 +2167,22 @@ def chk_sdvpn(ctx, case):
         return
     x, d = np.array(case['x'], dtype=float), np.array(case['d'], dtype=float)
     _check_terms(ctx, case, bad, pn, g, K, b, T, A1, A2, st, x, d, True, 'fresh object', scale)
+    # disldensity on a NON-uniform grid (explicit arguments): rho[i] = (d[i+k] - d[i]) / (x[i+k] - x[i]), k = 1 | 2
+    if case.get('xnu') is not None:
+        xnu = np.array(case['xnu'], dtype=float)
+        for cd in (False, True):
+            r = call(pn.disldensity, xnu, d, cdiff=cd)
+            ctx.stats.case('s:disldensity:nonuniform', (case['system'], tuple(xnu), cd))
+            rho = [[float(t) for t in row] for row in o_density(fvec(xnu), [fvec(r_) for r_ in d], cd)]
+            w = str(r) if isinstance(r, Raised) else (_cmp(r[0], xnu[1:-1] if cd else xnu[1:], 0, 0) or _cmp(r[1], rho, 1e-12, 1e-13))
+            if w:
+                bad('disldensity', f'disldensity(x, disregistry, cdiff={cd}) on the non-uniform grid x={xnu.tolist()} is not the '
+                                   f'{"central" if cd else "neighbour"} difference quotient: {w}')
+    stored = None
     for k, op in enumerate(case.get('ops', [])):
-        when = f'after step {k + 1} of {[o["kind"] + (":" + o["attr"] if o["kind"] == "set" else ":" + ",".join(sorted(o["kw"])) if o["kind"] == "solve" else "") for o in case["ops"][:k + 1]]} on one object'
-        r, x, d, given = _apply_op(np, mod, pn, op, st, v, g, x, d)
+        when = f'after step {k + 1} of {[o["kind"] + (":" + o["attr"] if o["kind"] == "set" else ":" + ",".join(sorted(o["kw"])) if o["kind"] == "solve" else ":" + o["which"] if o["kind"] == "store" else ":" + o["form"] + "," + "/".join(o.get("units", [])) if o["kind"] == "load" else "") for o in case["ops"][:k + 1]]} on one object'
+        r, x, d, stored = _apply_op(np, mod, pn, op, st, v, g, x, d, stored)
+        given = stored is None
         if r is not None:
             bad('seq:raises', f'{when}: {r}')
             return
@@ -1982,7 +2193,9 @@ def chk_sdvpn(ctx, case):
             return
         ok = _check_terms(ctx, case, bad, pn, g, K, b, T, A1, A2, st, x, d, True, when, scale)
         if not given:
-            ok = _check_terms(ctx, case, bad, pn, g, K, b, T, A1, A2, st, x, d, False, when + ' (stored x, disregistry)', scale) and ok
+            # every other subset of the optional arguments: none / x only / disregistry only
+            for mode in MODES[1:]:
+                ok = _check_terms(ctx, case, bad, pn, g, K, b, T, A1, A2, st, x, d, mode, when, scale, stored) and ok
         # the same settings on a fresh object
         fresh = call(new_pn, v, g, st)
         if not isinstance(fresh, Raised):
@@ -2146,14 +2359,29 @@ def chk_arctan(ctx, case):
 
     def bad(key, what):
         ctx.violate('arctan:' + key, what, case)
-    x = np.array(case['x'])
     b = np.array(case['burgers'])
     c, w = case['center'], case['halfwidth']
-    r = call(am.defect.pn_arctan_disregistry, x=x, burgers=b, center=c, halfwidth=w, normalize=case['normalize'], shift=case['shift'])
-    r2 = call(am.defect.pn_arctan_disldensity, x=x, burgers=b, center=c, halfwidth=w, normalize=case['normalize'])
-    ctx.stats.case('s:arctan', (tuple(x), tuple(b), c, w, case['normalize'], case['shift']))
+    if case.get('grid') is not None:
+        # the grid given by two of (xmax, xstep, xnum): n points from -xmax to xmax, spacing xstep
+        gk = case['grid']
+        n_ = gk['n']
+        xm = gk['xmax']
+        x = np.array([-xm + (2 * xm) * i / (n_ - 1) for i in range(n_)])
+        kwx = {k: {'xmax': xm, 'xstep': gk['xstep'], 'xnum': n_}[k] for k in gk['given']}
+    else:
+        x = np.array(case['x'])
+        kwx = {'x': x}
+    r = call(am.defect.pn_arctan_disregistry, burgers=b, center=c, halfwidth=w, normalize=case['normalize'], shift=case['shift'], **kwx)
+    r2 = call(am.defect.pn_arctan_disldensity, burgers=b, center=c, halfwidth=w, normalize=case['normalize'], **kwx)
+    ctx.stats.case('s:arctan', (tuple(x), tuple(b), c, w, case['normalize'], case['shift'], str(sorted(kwx))))
+    if case.get('grid') is not None and not isinstance(r, Raised) and not isinstance(r2, Raised):
+        wv = _cmp(r[0], x, 1e-13, 1e-13) or _cmp(r2[0], x, 1e-13, 1e-13)
+        if wv:
+            bad('grid', f'pn_arctan_*({ {k: kwx[k] for k in kwx} }) does not use the {n_} points from -xmax to xmax with spacing xstep: {wv}')
+            return
+        x = np.asarray(r[0], dtype=float)
     if isinstance(r, Raised) or isinstance(r2, Raised):
-        bad('raises', f'pn_arctan_* {r if isinstance(r, Raised) else r2}')
+        bad('raises', f'pn_arctan_*({"x=..." if "x" in kwx else kwx}) {r if isinstance(r, Raised) else r2}')
         return
     raw = [[bi / math.pi * math.atan((xi - c) / w) + bi / 2 for bi in b] for xi in x]
     nb = math.sqrt(sum(bi * bi for bi in b))
@@ -2170,7 +2398,7 @@ def chk_arctan(ctx, case):
         bad('disldensity', f'pn_arctan_disldensity != b/pi w/((x-c)^2 + w^2) (normalize={case["normalize"]}): {wv}')
 
 
-CHECKS = {'gamma': chk_gamma, 'sdvpn': chk_sdvpn, 'elastic': chk_elastic, 'solve': chk_solve, 'halfwidth': chk_halfwidth,
+CHECKS = {'gamma': chk_gamma, 'gseq': chk_gseq, 'sdvpn': chk_sdvpn, 'elastic': chk_elastic, 'solve': chk_solve, 'halfwidth': chk_halfwidth,
           'arctan': chk_arctan}
 
 
@@ -2203,27 +2431,69 @@ def gen_search_ops(rng, st, pn, x):
     """edit sequence for the search (setters, solve(**kwargs), load, same-length profile on another grid)."""
     ops = []
     cur = dict(st)
+    stored_n = None
+    cur_n = len(x)
     for _ in range(rng.randint(2, 4)):
         if rng.random() < 0.25:
             x2, d2 = rescaled_profile(rng, pn, x)
             ops.append({'kind': 'profile', 'x': x2, 'd': d2})
+            cur_n = len(x2)
+            continue
+        if (stored_n is None and rng.random() < 0.6) or rng.random() < 0.1:
+            sx, sd = _profile_json(rng, pn, n=(stored_n if stored_n and rng.random() < 0.5 else None))
+            which = 'xd' if stored_n != len(sx) else rng.choice(['xd', 'x', 'd'])
+            ops.append({'kind': 'store', 'which': which, 'x': sx, 'd': sd})
+            stored_n = len(sx)
             continue
         op = rand_op(rng, cur, 0)
         if op['kind'] == 'solve':
             op.pop('newprofile')
             if rng.random() < 0.5:
                 op['x'], op['d'] = _profile_json(rng, pn)
+            stored_n = cur_n = len(op['x']) if op.get('x') is not None else cur_n
             op['method'] = 'Nelder-Mead'      # a few simplex steps next to the start point, whatever the settings
             op['options'] = {'maxfev': rng.choice([5, 20])}
             cur.update(op['kw'])
         elif op['kind'] == 'load':
             op['x'], op['d'] = _profile_json(rng, pn)
             op['include_gamma'] = rng.random() < 0.3
+            op['units'] = op['units'] + [rng.choice(['eV/Å^2', 'mJ/m^2'])]
+            stored_n = cur_n = len(op['x'])
             cur = dict(op['settings'])
         else:
             cur[op['attr']] = op['value']
         ops.append(op)
     return ops
+
+
+def gen_gamma_sub(rng, spec, small=False):
+    """queries, periods, plotting axes and model forms for the gamma-surface clauses on `spec`."""
+    dy = spec['regime'] == 'dyadic'
+    m = rng.choice([1, 3, 6])
+    qs = [[cm.dyadic(rng, -3, 3, 5), cm.dyadic(rng, -3, 3, 5)] if dy else [rng.uniform(-3, 3), rng.uniform(-3, 3)] for _ in range(m)]
+    if rng.random() < 0.5:
+        k = rng.randrange(len(spec['a1']))
+        qs[0] = [spec['a1'][k], spec['a2'][k]]
+    return {'queries': qs,
+            'periods': [[rng.randint(-3, 3), rng.randint(-3, 3)] for _ in range(1 if small else 3)] + [[1, 0], [0, -1]],
+            'singles': [rng.randrange(len(spec['a1'])) for _ in range(2)],
+            'xvects': ['default', rng.choice(['a2', 'mix'])],
+            'models': [[rng.choice(['dm', 'json', 'xml']), rng.choice(UNITS_L), rng.choice(UNITS_E)]]}
+
+
+def gen_arctan_grid(rng, given):
+    """a grid of n points from -xmax to xmax with spacing xstep, given by two of the three numbers as DECIMAL literals
+    (xstep = k/100, xmax = k (n - 1) / 200): the float quotient 2 xmax / xstep is then an integer only up to rounding --
+    half of the cases are picked with the quotient just BELOW the integer, half just above or exact."""
+    from decimal import Decimal
+    want_below = rng.random() < 0.5
+    for _ in range(40):
+        k, n_ = rng.randint(3, 150), rng.randint(3, 80)
+        xstep = float(Decimal(k) / 100)
+        xmax = float(Decimal(k) * (n_ - 1) / 200) if 'xmax' in given else xstep * (n_ - 1) / 2
+        if ((2 * xmax) / xstep < n_ - 1) == want_below:
+            break
+    return {'n': n_, 'xstep': xstep, 'xmax': xmax, 'given': given}
 
 
 def search(ctx, broken):
@@ -2239,19 +2509,17 @@ def search(ctx, broken):
         regime = 'dyadic' if (it // len(VECTS) + it) % 2 == 0 else 'generic'
         grid = rng.choice(GRIDS_ANISO[regime]) if it % 3 == 2 else None
         spec = gen_gamma_spec(rng, regime=regime, vects=vects, grid=grid, dup=(it % 3 == 1), delta=(it % 2 == 0))
-        dy = regime == 'dyadic'
-        m = rng.choice([1, 3, 6])
-        qs = [[cm.dyadic(rng, -3, 3, 5), cm.dyadic(rng, -3, 3, 5)] if dy else [rng.uniform(-3, 3), rng.uniform(-3, 3)] for _ in range(m)]
-        if rng.random() < 0.5:
-            k = rng.randrange(len(spec['a1']))
-            qs[0] = [spec['a1'][k], spec['a2'][k]]
-        case = {'op': 'gamma', 'spec': spec, 'queries': qs,
-                'periods': [[rng.randint(-3, 3), rng.randint(-3, 3)] for _ in range(3)] + [[1, 0], [0, -1]],
-                'singles': [rng.randrange(len(spec['a1'])) for _ in range(2)],
-                'xvects': ['default', rng.choice(['a2', 'mix'])],
-                'models': [[rng.choice(['dm', 'json', 'xml']), rng.choice(['angstrom', 'nm']), rng.choice(['mJ/m^2', 'eV/angstrom^2', 'J/m^2'])]]}
-        run_case(ctx, case)
+        run_case(ctx, dict(gen_gamma_sub(rng, spec), op='gamma', spec=spec))
     ctx.extra['t_search_gamma_s'] = round(time.time() - t0, 2)
+    # ---- ONE GammaSurface object reloaded with other vectors / box / data: every first setting (3- and 4-index)
+    t0 = time.time()
+    firsts = VECTS + VECTS4
+    for it in range(ctx.n(len(firsts), 3 * len(firsts)) * big):
+        specs = gen_reload_specs(rng, regime=('dyadic' if (it // len(firsts) + it) % 2 == 0 else 'generic'), first=firsts[it % len(firsts)],
+                                 steps=(1 if it % 3 else 2))
+        run_case(ctx, {'op': 'gseq', 'specs': specs, 'hows': [gen_reload_how(rng) for _ in specs[1:]],
+                       'sub': [gen_gamma_sub(rng, sp, small=True) for sp in specs]})
+    ctx.extra['t_search_gamma_obj_s'] = round(time.time() - t0, 2)
     # ---- SDVPN: all 16 combinations of (fullstress, cdiffelastic, cdiffsurface, cdiffstress) per system, with
     #      non-zero tau rows, alpha, beta, cut-off; then edit sequences on one object
     t1 = time.time()
@@ -2274,6 +2542,13 @@ def search(ctx, broken):
             case = {'op': 'sdvpn', 'system': name, 'spec': spec, 'settings': st, 'x': x, 'd': d, 'ops': []}
             if k % 4 == 0:
                 case['ops'] = gen_search_ops(rng, st, pn0, x)
+            elif k % 4 == 2:
+                # a stored profile (property setters), then every method with every subset of its optional arguments
+                sx, sd = _profile_json(rng, pn0, n=rng.randint(5, 8))
+                case['ops'] = [{'kind': 'store', 'which': 'xd', 'x': sx, 'd': sd}]
+            elif k % 4 == 1:
+                t_ = 0.0
+                case['xnu'] = [t_ := t_ + cm.dyadic(rng, 0.125, 1.5, 3) for _ in x]
             run_case(ctx, case)
         for k in range(ctx.n(2, 8) * big):
             x, d = _profile_json(rng, pn0, dyadic=True, n=rng.randint(5, 10))
@@ -2302,7 +2577,10 @@ def search(ctx, broken):
         n = rng.randint(3, 12)
         dx = rng.choice([0.25, 0.5, 0.1, 0.3])
         x0 = rng.choice([0.0, 0.3, -1.0])
-        run_case(ctx, {'op': 'arctan', 'x': [x0 + dx * (i - (n - 1) / 2) for i in range(n)],
+        grid = None
+        if it % 2:
+            grid = gen_arctan_grid(rng, [['xmax', 'xstep'], ['xmax', 'xstep'], ['xmax', 'xnum'], ['xstep', 'xnum']][(it // 2) % 4])
+        run_case(ctx, {'op': 'arctan', 'grid': grid, 'x': [x0 + dx * (i - (n - 1) / 2) for i in range(n)],
                        'burgers': rng.choice([[1.0, 0.0, 0.0], [2.5, 0.0, 0.0], [0.0, 0.0, 3.0], [1.5, 0.0, -2.0], [0.5, 0.25, 1.0]]),
                        'center': rng.choice([0.0, 0.0, 0.25, -1.0]), 'halfwidth': rng.choice([1.0, 0.5, 2.0, 0.3, 1.7]),
                        'normalize': rng.random() < 0.6, 'shift': rng.random() < 0.6})
